@@ -27,6 +27,8 @@ type lwProfile struct {
 	Dispatch    bool // include event dispatch in the battery
 	Search      bool // include searches in the battery
 	System      bool // drive a sys.System instead of bare locations (set by cfg too)
+	Values      bool // judge ProcessEvent().Values against the rules' constant action values
+	Lifecycle   bool // RuleEnabled agrees with the model; battery also runs in disabled locations
 }
 
 type lw struct {
@@ -280,9 +282,9 @@ func applyModelOp(m *h.Model, op h.Op) *h.Item {
 		l := m.Loc(op.Loc)
 		if m.Enabled(l) && m.CanWrite(l, prot(op)) {
 			if op.B {
-				m.RemFact(op.Loc, h.PropId(op.Id, "disabled"), prot(op))
+				m.RemRaw(op.Loc, h.PropId(op.Id, "disabled"))
 			} else {
-				m.AddFact(op.Loc, "", map[string]interface{}{"id": op.Id, "!disabled": true, "deleteWith": []interface{}{op.Id}}, prot(op))
+				m.SetPropRaw(op.Loc, op.Id, "disabled", true)
 			}
 		}
 	case "setparents":
@@ -292,11 +294,10 @@ func applyModelOp(m *h.Model, op h.Op) *h.Item {
 			for i, p := range op.L {
 				ps[i] = p
 			}
-			m.AddFact(op.Loc, "", map[string]interface{}{"id": "", "!parents": ps, "deleteWith": []interface{}{""}}, h.Prot{WK: m.WriteKeyOf(l)})
+			m.SetPropRaw(op.Loc, "", "parents", ps)
 		}
 	case "setprop":
-		l := m.Loc(op.Loc)
-		m.AddFact(op.Loc, "", map[string]interface{}{"id": op.Id, "!" + op.S: h.Clone(op.J), "deleteWith": []interface{}{op.Id}}, h.Prot{WK: m.WriteKeyOf(l)})
+		m.SetPropRaw(op.Loc, op.Id, op.S, op.J)
 	case "clear":
 		l := m.Loc(op.Loc)
 		if m.Enabled(l) && m.CanWrite(l, prot(op)) {
@@ -740,9 +741,9 @@ func (w *lw) step(op h.Op) {
 			w.agree(op, err, merr, "protected")
 		} else if err == nil {
 			if op.B {
-				m.RemFact(op.Loc, h.PropId(op.Id, "disabled"), prot(op))
+				m.RemRaw(op.Loc, h.PropId(op.Id, "disabled"))
 			} else {
-				m.AddFact(op.Loc, "", map[string]interface{}{"id": op.Id, "!disabled": true, "deleteWith": []interface{}{op.Id}}, prot(op))
+				m.SetPropRaw(op.Loc, op.Id, "disabled", true)
 			}
 		}
 		// an error from EnableRule in an unprotected location (e.g. at
@@ -768,7 +769,7 @@ func (w *lw) step(op h.Op) {
 			for i, p := range op.L {
 				ps[i] = p
 			}
-			m.AddFact(op.Loc, "", map[string]interface{}{"id": "", "!parents": ps, "deleteWith": []interface{}{""}}, h.Prot{WK: m.WriteKeyOf(l)})
+			m.SetPropRaw(op.Loc, "", "parents", ps)
 		}
 	case "clear":
 		loc := w.eng.Loc(op.Loc)
@@ -818,8 +819,7 @@ func (w *lw) step(op h.Op) {
 			return
 		}
 		if err == nil {
-			l := m.Loc(op.Loc)
-			m.AddFact(op.Loc, "", map[string]interface{}{"id": op.Id, "!" + op.S: h.Clone(val), "deleteWith": []interface{}{op.Id}}, h.Prot{WK: m.WriteKeyOf(l)})
+			m.SetPropRaw(op.Loc, op.Id, op.S, val)
 		}
 	case "readonly":
 		loc := w.eng.Loc(op.Loc)
@@ -985,7 +985,10 @@ func (w *lw) checkGet(locName, id string, p h.Prot, op h.Op) {
 	}
 	unc := w.model.IsUncertain(locName, id)
 	it, merr := w.model.Get(locName, id, p)
-	w.model.Confirm(locName, id)
+	if ml := w.model.Loc(locName); w.model.Enabled(ml) && w.model.CanRead(ml, p) {
+		// the engine looked the id up (and purged it if it had expired)
+		w.model.Confirm(locName, id)
+	}
 	if unc {
 		return
 	}
@@ -1166,8 +1169,97 @@ func (w *lw) checkDispatch(locName string, event map[string]interface{}, p h.Pro
 	if d := h.DiffSets(got, want, skip); d != "" {
 		w.fail("dispatch-mismatch", "event:"+diffKind(d)+":"+w.whenShapes(locName, d), "ProcessEvent(%s, %s): %s", locName, h.Canon(event), d)
 	}
+	if w.prof.Values {
+		// every dispatched rule's constant action value appears once per binding
+		var wantVals []string
+		judge := true
+		for id := range got {
+			if skip(id) {
+				judge = false
+			}
+		}
+		for id, bss := range want {
+			if skip(id) {
+				judge = false
+				break
+			}
+			vals, ok := w.constActionValues(locName, id)
+			if !ok {
+				judge = false
+				break
+			}
+			for range bss {
+				wantVals = append(wantVals, vals...)
+			}
+		}
+		if judge {
+			gotVals := h.ObsValues(fr)
+			if h.MultisetKey(gotVals) != h.MultisetKey(wantVals) {
+				w.fail("values-mismatch", "event:values", "ProcessEvent(%s, %s).Values = %v, expected %v (dispatched %v)", locName, h.Canon(event), gotVals, wantVals, want)
+			}
+		}
+	}
 	if len(want) > 0 {
 		w.res.Nontrivial = append(w.res.Nontrivial, "dispatch|"+h.Canon(event)+"|"+w.model.StateKey())
+	}
+}
+
+// constActionValues returns the canonical values of a rule's actions when
+// they are all constant string literals ('...').
+func (w *lw) constActionValues(loc, id string) ([]string, bool) {
+	names, _ := w.model.Ancestors(loc)
+	for _, n := range names {
+		it, ok := w.model.Loc(n).Items[id]
+		if !ok {
+			continue
+		}
+		r := h.RuleOf(it)
+		if r == nil {
+			return nil, false
+		}
+		var acts []interface{}
+		if a, ok := r["action"]; ok {
+			acts = append(acts, a)
+		}
+		if as, ok := r["actions"].([]interface{}); ok {
+			acts = append(acts, as...)
+		}
+		var out []string
+		for _, a := range acts {
+			am, ok := a.(map[string]interface{})
+			if !ok {
+				return nil, false
+			}
+			code, ok := am["code"].(string)
+			if !ok || len(code) < 2 || code[0] != '\'' || code[len(code)-1] != '\'' || strings.Count(code, "'") != 2 {
+				return nil, false
+			}
+			out = append(out, h.Canon(code[1:len(code)-1]))
+		}
+		return out, true
+	}
+	return nil, false
+}
+
+func (w *lw) checkRuleEnabled(ln, id string, p h.Prot) {
+	l := w.model.Loc(ln)
+	loc := w.eng.Loc(ln)
+	var en bool
+	var err error
+	w.call("RuleEnabled", func() { en, err = loc.RuleEnabled(h.NewCtx(p), id) })
+	if !w.model.Enabled(l) {
+		if err == nil {
+			w.fail("disabled-location-answers", "ruleenabled", "RuleEnabled(%s/%s) succeeded in a disabled location", ln, id)
+		}
+		return
+	}
+	it, ok := l.Items[id]
+	if !ok || h.RuleOf(it) == nil || !w.model.Live(it) || w.model.IsUncertain(ln, id) || w.model.IsUncertain(ln, h.PropId(id, "disabled")) {
+		return
+	}
+	want := !w.model.RuleDisabled(l, id)
+	if err != nil || en != want {
+		w.fail("rule-enabled-flag", "ruleenabled", "RuleEnabled(%s/%s) = %v %s, the model says %v", ln, id, en, isErr(err), want)
 	}
 }
 
@@ -1276,11 +1368,14 @@ func (w *lw) after(op h.Op) {
 		}
 		l := w.model.Loc(ln)
 		p := h.Prot{RK: w.model.ReadKeyOf(l), WK: w.model.WriteKeyOf(l)}
-		if !w.model.Enabled(l) {
+		if !w.model.Enabled(l) && !w.prof.Lifecycle {
 			continue
 		}
 		for _, id := range w.ids(ln) {
 			w.checkGet(ln, id, p, op)
+			if w.prof.Lifecycle {
+				w.checkRuleEnabled(ln, id, p)
+			}
 		}
 		if w.prof.Search {
 			for _, pat := range w.batteryMaps("patterns") {
